@@ -212,3 +212,35 @@ func properSubset(a, b []string) bool {
 	}
 	return true
 }
+
+// stressConfigs are the configurations of the Stress programs (both tiers):
+// the local default (baseline), and on the cluster machines{2,3} x task procs
+// per machine{1,2} x MachineCombiners{off,on}. Task procs 1 = 2 procs at
+// MaxLoad 0.5, task procs 2 = 4 procs at MaxLoad 0.5; Parallelism = machines x
+// task procs, so that every machine of the quota is started.
+func stressConfigs() []Config {
+	out := []Config{defaultConfig("local")}
+	base := defaultConfig("vsys")
+	for _, m := range []int{2, 3} {
+		for _, k := range []int{1, 2} {
+			for _, mc := range []bool{false, true} {
+				m, k := m, k
+				var devs []deviation
+				if m != base.Machines {
+					devs = append(devs, deviation{"machines", fmt.Sprintf("machines=%d", m), func(c *Config) { c.Machines = m }})
+				}
+				if k == 1 {
+					devs = append(devs, deviation{"procs", "procs=2", func(c *Config) { c.Procs = 2 }})
+				}
+				if m*k != base.Par {
+					devs = append(devs, deviation{"par", fmt.Sprintf("par=%d", m*k), func(c *Config) { c.Par = m * k }})
+				}
+				if mc {
+					devs = append(devs, deviation{"mc", "mc=on", func(c *Config) { c.MC = true }})
+				}
+				out = append(out, derive(base, devs...))
+			}
+		}
+	}
+	return out
+}
